@@ -74,6 +74,11 @@ func c11Setup(e *vfEnv, r *vfkit.R, emailOn bool) *c11World {
 	th := store.Store.GetLogicalAuthHandler("token")
 	if tok, _, err := th.GenSecret(&auth.Rec{Uid: w.ok.uid, AuthLevel: auth.LevelAuth, Lifetime: auth.Duration(-3600e9), Features: auth.FeatureValidated}); err == nil {
 		w.ok.tokExp = base64.StdEncoding.EncodeToString(tok)
+	} else {
+		// the authenticator refuses to mint an expired token: build one with the right key and serial which expired in 2020
+		// (documented layout, independent implementation shared with C12)
+		key, _ := base64.StdEncoding.DecodeString(vfTokenKey)
+		w.ok.tokExp = base64.StdEncoding.EncodeToString(c12Forge(key, uint64(w.ok.uid), 1577836800, uint16(auth.LevelAuth), 1, uint16(auth.FeatureValidated)))
 	}
 	if tok, _, err := th.GenSecret(&auth.Rec{Uid: w.ok.uid, AuthLevel: auth.LevelAuth, Features: auth.FeatureNoLogin | auth.FeatureValidated}); err == nil {
 		w.ok.tokNL = base64.StdEncoding.EncodeToString(tok)
